@@ -1,6 +1,7 @@
 package val
 
 import (
+	"errors"
 	b64 "encoding/base64"
 	"fmt"
 	"math"
@@ -838,6 +839,10 @@ func toBool(val interface{}) (bool, error) {
 }
 
 func toString(val interface{}) (string, error) {
+	if val == nil {
+		// no value is not the text "<nil>"
+		return "", errors.New("cannot coerse nil to string")
+	}
 	rv := reflect.ValueOf(val)
 	switch rv.Kind() {
 	case reflect.Map, reflect.Slice, reflect.Array, reflect.Struct, reflect.Chan, reflect.Func, reflect.Ptr, reflect.UnsafePointer:
